@@ -23,6 +23,23 @@ VERIF = pathlib.Path(__file__).resolve().parent.parent
 REPO = pathlib.Path(os.environ.get("VERIF_REPO", "/repo"))
 COQ = VERIF / "coq"
 GUARD = "CAPELLAMBSE_VERIF"
+OUT = VERIF            # evidence/ and replay/ live here
+if REPO.resolve() != pathlib.Path("/repo"):
+    # Private mode (mutation testing / parallel agents): check another tree without
+    # disturbing /verif/coq, /verif/evidence or /verif/replay.
+    import atexit
+    _work = pathlib.Path(tempfile.mkdtemp(prefix="verifwork-"))
+    subprocess.run(["cp", "-a", str(VERIF / "coq"), str(_work / "coq")], check=True)
+    COQ = _work / "coq"
+    OUT = pathlib.Path(os.environ.get("VERIF_OUT") or (_work / "out"))
+    OUT.mkdir(parents=True, exist_ok=True)
+    if not os.environ.get("VERIF_OUT"):
+        atexit.register(lambda: shutil.rmtree(_work, ignore_errors=True))
+    else:
+        atexit.register(lambda: shutil.rmtree(_work / "coq", ignore_errors=True))
+os.environ["VERIF_COQ_DIR"] = str(COQ)
+os.environ["VERIF_REPO"] = str(REPO)
+os.environ["VERIF_TOOLS"] = str(VERIF / "tools")
 
 os.environ.setdefault("PYTHONHASHSEED", "0")
 os.environ.setdefault("TZ", "UTC")
@@ -174,12 +191,6 @@ class ProofResult(t.NamedTuple):
     broken: list[str]
 
 
-def run_generators(pid: str | None = None) -> tuple[bool, str]:
-    """Regenerate coq/Gen from /repo's working tree (write-if-changed)."""
-    rc, out = sh([sys.executable, str(VERIF / "tools" / "gen_all.py")] + ([pid] if pid else []), timeout=300)
-    return rc == 0, out
-
-
 def build_props(pid: str, *, timeout: int = 900, extra_targets: list[str] = ()) -> ProofResult:
     """Regenerate, then compile Props/<pid>.v (and its whole cone) from scratch
     for the Props file itself; parse Print Assumptions."""
@@ -187,16 +198,12 @@ def build_props(pid: str, *, timeout: int = 900, extra_targets: list[str] = ()) 
     src = strip_coq_comments(props.read_text())
     theorems = re.findall(r"^\s*(?:Theorem|Lemma|Corollary)\s+([A-Za-z0-9_']+)", src, re.M)
     printed = re.findall(r"Print Assumptions\s+([A-Za-z0-9_'.]+)\s*\.", src)
-    with build_lock():
-        gen_ok, gen_log = run_generators(pid)
-        broken: list[str] = []
-        if not gen_ok:
-            broken.append("generator: " + gen_log.strip().splitlines()[-1] if gen_log.strip() else "generator failed")
-        for ext in (".vo", ".vok", ".vos", ".glob"):
-            with contextlib.suppress(FileNotFoundError):
-                (COQ / "Props" / f"{pid}{ext}").unlink()
-        rc, log = sh(["timeout", str(timeout), str(COQ / "mk.sh"), f"Props/{pid}.vo", *extra_targets], timeout=timeout + 30)
-        log = gen_log + log
+    broken: list[str] = []
+    env = dict(os.environ, FORCE_REBUILD=f"Props/{pid}")
+    rc, log = sh(["timeout", str(timeout), str(COQ / "mk.sh"), f"Props/{pid}.vo", *extra_targets], timeout=timeout + 30, env=env)
+    for ln in log.splitlines():
+        if ln.startswith("GENERATOR-FAILED"):
+            broken.append("generator: " + ln)
     hyg = hygiene()
     assumptions: dict[str, str] = {}
     if rc == 0:
@@ -241,8 +248,6 @@ def coq_failing(imports: str, fn: str, cases: list[tuple[t.Any, t.Any]], *, tag:
         files.append((k, name))
     if not files:
         return [], ""
-    with build_lock():
-        pass  # make sure no build is running; models are compiled by build_props before
     procs = []
     failing: list[int] = []
     logs = []
@@ -293,10 +298,13 @@ def coq_failing(imports: str, fn: str, cases: list[tuple[t.Any, t.Any]], *, tag:
 
 # ---------------------------------------------------------------- known findings
 def load_known() -> list[dict]:
-    f = VERIF / "known_findings.json"
-    if not f.exists():
-        return []
-    return json.loads(f.read_text()).get("findings", [])
+    """known_findings.json plus the per-property fragments known_findings.d/*.json"""
+    out: list[dict] = []
+    files = [VERIF / "known_findings.json"] + sorted((VERIF / "known_findings.d").glob("*.json"))
+    for f in files:
+        if f.exists():
+            out.extend(json.loads(f.read_text()).get("findings", []))
+    return out
 
 
 # ---------------------------------------------------------------- check driver
@@ -337,8 +345,7 @@ class Check:
                    describe: t.Callable[[int], t.Any] | None = None, **kw) -> list[int]:
         if self.proof is not None and self.proof.discharged == 0 and self.proof.obligations:
             # models may still compile even when proofs are broken: build Model only
-            with build_lock():
-                sh([str(COQ / "mk.sh"), "-k"] + [str(p.relative_to(COQ)) + "o" for p in COQ.glob("Model/*.v")], timeout=900)
+            sh([str(COQ / "mk.sh"), "-k"] + [str(p.relative_to(COQ)) + "o" for p in COQ.glob("Model/*.v")], timeout=900)
         bad, log = coq_failing(imports, fn, cases, tag=tag or f"{self.pid}_{fn.replace('.', '_')}", **kw)
         self.corr_cases += len(cases)
         for i in bad[:20]:
@@ -363,7 +370,7 @@ class Check:
     def finish(self) -> int:
         known = [k for k in load_known() if k.get("property") == self.pid and k.get("status", "open") == "open"]
         known_keys = {k["key"]: k for k in known}
-        rdir = VERIF / "replay"
+        rdir = OUT / "replay"
         rdir.mkdir(exist_ok=True)
         new: dict[str, Finding] = {}
         seen_known: dict[str, Finding] = {}
@@ -442,8 +449,8 @@ class Check:
             "coverage": cov, "assumptions": TRUSTED_BASE + self.assumptions,
             "wall_s": round(time.time() - self.t0, 2), "violations": violations,
         }
-        (VERIF / "evidence").mkdir(exist_ok=True)
-        (VERIF / "evidence" / f"{self.pid}.json").write_text(json.dumps(ev, indent=1))
+        (OUT / "evidence").mkdir(exist_ok=True)
+        (OUT / "evidence" / f"{self.pid}.json").write_text(json.dumps(ev, indent=1))
 
 
 TRUSTED_BASE = [
